@@ -72,7 +72,8 @@ class JSONField(ABC):
         """
         d = self.__dict__.copy()
         for k in self.__dict__:
-            if d[k] is None or d[k] == 0:
+            # only None and integer 0 mean 'not set' - 0.0 (e.g. a latitude) and False are real values
+            if d[k] is None or (type(d[k]) is int and d[k] == 0):
                 d.pop(k)
         if len(d) == 0:
             return ''
@@ -102,7 +103,7 @@ class JSONField(ABC):
         """
         d = self.__dict__.copy()
         for k in self.__dict__:
-            if d[k] is None or d[k] == 0:
+            if d[k] is None or (type(d[k]) is int and d[k] == 0):
                 d.pop(k)
         if len(d) == 0:
             return None
